@@ -130,6 +130,8 @@ class Mk:
       for arg, tags in nd.get('tags', []):
         for t in tags:
           fdl.add_tag(cfg, arg, stubmod.TAGS[t])
+      for arg in nd.get('untag', []):
+        fdl.clear_tags(cfg, arg)   # e.g. a tag that came from an annotation
       return cfg
     raise ValueError(f'bad descriptor {d}')
 
@@ -264,6 +266,8 @@ def gen_value(rng, big):
           tags.append([arg, rng.sample(TAGS, rng.randint(1, 2))])
       d = {'node': {'btype': rng.choice(['Config', 'Config', 'Partial', 'ArgFactory']),
                     'fn': fn, 'args': args, 'kwargs': kwargs, 'tags': tags}}
+      if fn == 'n6' and rng.random() < 0.5:
+        d['node']['untag'] = rng.sample(['x', 'y'], rng.randint(1, 2))
     d['id'] = i
     if not any(k in d for k in ('tuple', 'slice', 'set', 'fset', 'tv')):
       shareable.append(i)
